@@ -59,6 +59,15 @@ Proof.
   destruct (N.eqb_spec l 0); [eauto|]. destruct (N.ltb_spec max_section l); [eauto|lia].
 Qed.
 
+Theorem ld_read_bounded s d r : ld_read s = Ok (Some (d, r)) -> N.of_nat (length d) <= max_section.
+Proof.
+  unfold ld_read. destruct s as [|c s']; [discriminate|].
+  destruct (go_read_uvarint (c :: s')) as [[l rest]|e|]; try discriminate.
+  destruct (l =? 0); [discriminate|]. destruct (N.ltb_spec max_section l); [discriminate|].
+  destruct (N.ltb_spec (N.of_nat (length rest)) l); [discriminate|]. intros [= <- _].
+  rewrite firstn_length. lia.
+Qed.
+
 Example header_ok_car_header : header_ok car_header = true.
 Proof. vm_compute. reflexivity. Qed.
 
